@@ -61,7 +61,10 @@ like a primary name.
 Differs from the original `C14_alias_shape` (false, see the comment above) in two places: the
 absence of `tag ++ "alias"` on the alias field is stated under the no-collision hypothesis
 `hnocoll` (no tag name of the list is another one's alias-tag name), and the last conjunct has the
-extra hypothesis `hdesc : tag ≠ "dialsdesc"`.  Everything else is verbatim. -/
+extra hypothesis `hdesc : tag ≠ "dialsdesc"`.  Everything else is verbatim.
+
+The alias field additionally loses every source-specific name tag without an alias of its own
+(`C14_alias_drops_unaliased`); an aliased tag is never among those, so the last conjunct stands. -/
 theorem C14_alias_shape_partial (tags : List String) (h : Hdr) (t : Ty) (tag a : String)
     (ht : tag ∈ tags) (ha : tagGet h.tags (tag ++ "alias") = some a) :
     ∃ hp hal, aliasMangle tags h t = .ok [(hp, t), (hal, t)] ∧
@@ -82,14 +85,53 @@ theorem C14_alias_shape_partial (tags : List String) (h : Hdr) (t : Ty) (tag a :
   · intro hnocoll
     show tagGet (tagSet _ "dialsdesc" _) (tag ++ "alias") = none
     rw [tagGet_tagSet_ne _ _ _ _ (dialsdesc_ne_alias tag)]
+    apply tagGet_dropFold_none
     exact tagGet_setFold_none _ _ _
       (fun p hp => Ne.symm (hnocoll tag ht p.1 (mem_aliasFound.1 hp).1))
       (Or.inr ⟨(tag, a), hmem, rfl⟩)
   · intro hnd hnocoll hdesc
     show tagGet (tagSet _ "dialsdesc" _) tag = some a
     rw [tagGet_tagSet_ne _ _ _ _ hdesc]
+    -- an aliased tag is never dropped from the alias field
+    show tagGet (dropFold _ _ _) tag = some a
+    rw [tagGet_dropFold_keep _ _ _ _ (fun _ => aliasFound_any_of_mem hmem)]
     exact tagGet_setFold_tag _ _ tag a hmem (aliasFound_nodup tags h hnd)
       (fun p hp => hnocoll p.1 (mem_aliasFound.1 hp).1 tag ht)
+
+/-- The alias field answers to the alias names only: a source-specific name tag `tag'` (any tag of the
+list but the first, base, one) that has no alias of its own on this field is dropped from the alias
+field, while the primary field keeps it (under the no-collision hypothesis, without which deleting
+the alias tags could delete `tag'` itself).  `tag' ≠ "dialsdesc"` because the alias field's
+description is rewritten last. -/
+theorem C14_alias_drops_unaliased (tags : List String) (h : Hdr) (t : Ty) (tag a tag' : String)
+    (ht : tag ∈ tags) (ha : tagGet h.tags (tag ++ "alias") = some a)
+    (ht' : tag' ∈ tags.drop 1) (hna : tagGet h.tags (tag' ++ "alias") = none) (hdesc : tag' ≠ "dialsdesc") :
+    ∃ hp hal, aliasMangle tags h t = .ok [(hp, t), (hal, t)] ∧
+      tagGet hal.tags tag' = none ∧
+      ((hnocoll : ∀ t1 ∈ tags, ∀ t2 ∈ tags, t1 ++ "alias" ≠ t2) → tagGet hp.tags tag' = tagGet h.tags tag') := by
+  have hmem : (tag, a) ∈ aliasFound tags h := mem_aliasFound.2 ⟨ht, ha⟩
+  have hne : (aliasFound tags h).isEmpty = false := by
+    cases hfd : aliasFound tags h with
+    | nil => rw [hfd] at hmem; cases hmem
+    | cons p f => rfl
+  rw [aliasMangle_eq, hne]
+  refine ⟨_, _, rfl, ?_, ?_⟩
+  · show tagGet (tagSet _ "dialsdesc" _) tag' = none
+    rw [tagGet_tagSet_ne _ _ _ _ hdesc]
+    exact tagGet_dropFold_drop _ _ _ tag' ht' (aliasFound_any_false tags h tag' hna)
+  · intro hnocoll
+    exact tagGet_delFold_other _ _ _
+      (fun p hp => hnocoll p.1 (mem_aliasFound.1 hp).1 tag' (List.mem_of_mem_drop ht'))
+
+/-- `C14_alias_drops_unaliased` on a concrete field of the env chain's tag list (its hypotheses are
+satisfiable): `dials` has an alias, `dialsenv` has none, so the alias field has no `dialsenv` tag
+while the primary field keeps its own -/
+theorem C14_alias_drops_unaliased_example :
+    let h : Hdr := { name := "F", tags := [("dials", "x"), ("dialsenv", "X"), ("dialsalias", "y")] }
+    ∃ hp hal, aliasMangle ["dials", "dialsenv"] h Ty.dur = .ok [(hp, Ty.dur), (hal, Ty.dur)] ∧
+      tagGet hal.tags "dials" = some "y" ∧ tagGet hal.tags "dialsenv" = none ∧
+      tagGet hp.tags "dials" = some "x" ∧ tagGet hp.tags "dialsenv" = some "X" := by
+  refine ⟨_, _, rfl, by decide, by decide, by decide, by decide⟩
 
 /-- counterexample (1) to the original `C14_alias_shape`: a later tag named `tag ++ "alias"` -/
 theorem C14_alias_shape_counterexample_collision :
